@@ -101,18 +101,22 @@ def aget (a : List α) (p : Int) : Except Err α :=
 FOAY0001 if any position is out of 1..size -/
 def aremove (a : List α) (ps : List Int) : Except Err (List α) :=
   if ps.all (inBounds a.length) then
-    .ok (((List.range a.length).filter fun i => !ps.contains ((i : Int) + 1)).filterMap fun i => a[i]?)
+    .ok (((List.range a.length).filter fun (i : Nat) => !ps.contains ((i : Int) + 1)).filterMap fun i => a[i]?)
   else .error .FOAY0001
 
 /-- §17.3.6 array:subarray($array, $start, $length) = the members at positions
 `$start to $start + $length - 1`; FOAY0001 if `$start < 1` or `$start + $length > size + 1`,
-FOAY0002 if `$length < 0`; the two-argument form has `$length = size - $start + 1`. -/
+FOAY0002 if `$length < 0`; the two-argument form takes everything from `$start`, FOAY0001 if
+`$start < 1` or `$start > size + 1`. -/
 def asubarray (a : List α) (start : Int) (len : Option Int) : Except Err (List α) :=
-  let l : Int := len.getD ((a.length : Int) - start + 1)
-  if start < 1 then .error .FOAY0001
-  else if len.isSome && l < 0 then .error .FOAY0002
-  else if start + l > (a.length : Int) + 1 then .error .FOAY0001
-  else .ok ((a.drop (start - 1).toNat).take l.toNat)
+  match len with
+  | none =>
+    if start < 1 ∨ start > (a.length : Int) + 1 then .error .FOAY0001
+    else .ok (a.drop (start - 1).toNat)
+  | some l =>
+    if l < 0 then .error .FOAY0002
+    else if start < 1 ∨ start + l > (a.length : Int) + 1 then .error .FOAY0001
+    else .ok ((a.drop (start - 1).toNat).take l.toNat)
 
 /-- §17.3.10 array:insert-before =
 `array:join((array:subarray($array, 1, $position - 1), [$member], array:subarray($array, $position)))`;
